@@ -1178,11 +1178,16 @@ func (e *Exec) applyContract(ct *Contract, fn *types.Func, sig *types.Signature,
 		e.assume(c.st, fmt.Sprintf("(forall ((o!a Int)) (! (=> (select %s o!a) (select %s o!a)) :pattern ((select %s o!a))))", oldA.S, newA.S, oldA.S))
 		// objects allocated by the callee are of the kinds it declares
 		var kinds []string
+		anyKind := false
 		for _, k := range ct.AllocT {
 			e.allocKinds[k] = true
+			if k == "any" {
+				anyKind = true // "allocates any": objects of every kind may have been allocated
+				continue
+			}
 			kinds = append(kinds, fmt.Sprintf("(= (rtype o!a) %d)", e.rtypeTag(k)))
 		}
-		if len(kinds) > 0 {
+		if len(kinds) > 0 && !anyKind {
 			e.assume(c.st, fmt.Sprintf("(forall ((o!a Int)) (! (=> (and (select %s o!a) (not (select %s o!a))) (or %s)) :pattern ((select %s o!a))))", newA.S, oldA.S, strings.Join(kinds, " "), newA.S))
 		}
 	}
